@@ -30,6 +30,8 @@ pub enum Case {
     Gs3Challenge { st: Gs3State },
     /// Java handshake fields: host name, protocol version (through RequestSettings or ExtraRequestSettings), port
     Java { status: JavaStatus, hostname: Option<String>, protocol_version: Option<i32>, port: u16, via_extra: bool },
+    /// Eco over HTTP (real loopback server: ureq bypasses the scripted transport): request line and Host header
+    Eco { v6: bool, hostname: Option<String>, via_generic: bool, idx: u64 },
 }
 
 pub struct C09;
@@ -135,7 +137,7 @@ impl Prop for C09 {
          by field) with nothing extra. (b) Valve challenges: every single-byte sweep (4 positions x 256 values x 6 backgrounds) on info / players / rules, plus random \
          1-3 round sequences: the follow-up must carry exactly the issued bytes. (c) GameSpy 3 challenges: all integers in [-70000, 70000] (thorough; a stride in quick), \
          all +-2^k+-1, extremes and 0 (= none): the data request must carry the 4-byte big-endian value, or nothing for 0. (d) Java handshake with arbitrary host names \
-         (up to 255 bytes, non-ASCII) and any i32 protocol version. non-trivial = a challenge round happened or a non-default setting / omitted port was used; distinct = \
+         (up to 255 bytes, non-ASCII) and any i32 protocol version. (e) Eco over HTTP (real loopback HTTP servers on 127.0.0.1 and ::1, through the generic path and the module function, with and without a configured host name; generated names are DNS names whose labels begin with a letter, because a numeric host is an IPv4 literal to the URL parser): exactly one request, `GET /frontpage HTTP/1.1`, whose Host header is the configured name (or the address literal, bracketed for IPv6) and the port. non-trivial = a challenge round happened or a non-default setting / omitted port was used; distinct = \
          digest of the case"
             .into()
     }
@@ -168,7 +170,9 @@ impl Prop for C09 {
             any::<bool>(),
         )
             .prop_map(|(status, hostname, protocol_version, port, via_extra)| Case::Java { status, hostname, protocol_version, port, via_extra });
-        prop_oneof![6 => game, 3 => valve, 2 => gs3, 2 => java].boxed()
+        let eco = (any::<bool>(), prop::option::of(prop_oneof![Just("eco.example.net".to_string()), "[a-z]([a-z0-9-]{0,20}[a-z0-9])?(\\.[a-z][a-z0-9]{0,9}){0,3}".prop_map(|s| s)]), any::<bool>(), 0u64 .. 64)
+            .prop_map(|(v6, hostname, via_generic, idx)| Case::Eco { v6, hostname, via_generic, idx });
+        prop_oneof![24 => game, 12 => valve, 8 => gs3, 8 => java, 1 => eco].boxed()
     }
 
     fn enumerated<'a>(&'a self, tier: Tier, shard: usize, nshards: usize) -> Box<dyn Iterator<Item = Case> + 'a> {
@@ -283,6 +287,46 @@ impl Prop for C09 {
                     o.fail(format!("C09|gamespy::three::query|challenge echo|{what}"), json!({"challenge": st.challenge, "detail": detail, "wire": render_log(&run.log[.. run.log.len().min(12)])}));
                 } else if !matches!(run.ended, crate::wire::Ended::Ok(_)) {
                     o.fail(format!("C09|gamespy::three::query|challenge echo|query failed {}", run.ended.kind_str()), json!({"challenge": st.challenge, "wire": render_log(&run.log[.. run.log.len().min(12)])}));
+                }
+            }
+            Case::Eco { v6, hostname, via_generic, idx } => {
+                use crate::models::eco::{eco_state, thread_server, thread_server_v6};
+                o.label(format!("eco-http ipv{} host-name={} via-{}", if *v6 { 6 } else { 4 }, hostname.is_some(), if *via_generic { "generic" } else { "module" }));
+                o.nontrivial = true;
+                let server = if *v6 { thread_server_v6() } else { thread_server() };
+                let Some(server) = server else {
+                    o.excluded = Some(format!("cannot bind the IPv{} loopback address (class skipped)", if *v6 { 6 } else { 4 }));
+                    o.nontrivial = false;
+                    return o;
+                };
+                let st = sample_one(&eco_state().boxed(), "C09-eco", *idx);
+                server.set_json(&st.body());
+                let ip: IpAddr = if *v6 { Ipv6Addr::LOCALHOST.into() } else { std::net::Ipv4Addr::LOCALHOST.into() };
+                let port = server.port;
+                let mut extra = gamedig::protocols::types::ExtraRequestSettings::default();
+                if let Some(h) = hostname {
+                    extra = extra.set_hostname(h.clone());
+                }
+                let t = gamedig::protocols::types::TimeoutSettings::new(Some(std::time::Duration::from_secs(3)), Some(std::time::Duration::from_secs(3)), Some(std::time::Duration::from_secs(3)), 0).ok();
+                let run = crate::wire::run_plain(|| {
+                    if *via_generic {
+                        gamedig::query_with_timeout_and_extra_settings(&GAMES["eco"], &ip, Some(port), t, Some(extra.clone())).map(|_| ())
+                    } else {
+                        gamedig::games::eco::query_with_timeout_and_extra_settings(&ip, Some(port), &t, Some(extra.clone().into())).map(|_| ())
+                    }
+                });
+                let reqs = server.requests();
+                let literal = if *v6 { "[::1]".to_string() } else { "127.0.0.1".to_string() };
+                let want_host = format!("{}:{port}", hostname.clone().unwrap_or(literal));
+                let detail = json!({"ipv6": v6, "host_name": hostname, "via_generic": via_generic, "requests": format!("{reqs:?}").chars().take(600).collect::<String>(), "result": run.ended.kind_str(), "expected_host": want_host});
+                if !matches!(run.ended, crate::wire::Ended::Ok(_)) {
+                    o.fail(format!("C09|eco::query|http request|query failed {}", run.ended.kind_str()), detail);
+                } else if reqs.len() != 1 {
+                    o.fail("C09|eco::query|http request|not exactly one request", detail);
+                } else if reqs[0].0 != "GET /frontpage HTTP/1.1" {
+                    o.fail("C09|eco::query|http request|request line", detail);
+                } else if !reqs[0].1.iter().any(|(k, v)| k == "host" && v.eq_ignore_ascii_case(&want_host)) {
+                    o.fail("C09|eco::query|http request|Host header", detail);
                 }
             }
             Case::Java { status, hostname, protocol_version, port, via_extra } => {
